@@ -532,6 +532,13 @@ fn main() {
 }
 """)
 
+prog("compose_repeated_vector", """
+@group(0) @binding(0) var<storage, read_write> o: array<vec4<f32>, 2>;
+@group(0) @binding(1) var<uniform> u: vec2<f32>;
+@compute @workgroup_size(1)
+fn main() { let v = u; o[0] = vec4<f32>(v, v); }
+""", mode="finite")
+
 prog("runtime_array_pointer_param", """
 @group(0) @binding(0) var<storage, read_write> data: array<u32>;
 @group(0) @binding(1) var<storage, read_write> o: array<u32, 4>;
